@@ -20,7 +20,7 @@ EmptyLedger(scn) ==
     open |-> <<>>, calls |-> <<>>, sent |-> <<>>, tk |-> <<>>, eff |-> <<>>,
     kv |-> <<>>, ever |-> {}, inval |-> {}, namedxo |-> {}, replacedFor |-> {},
     faulted |-> FALSE, hardfault |-> {}, pairs |-> {}, varies |-> {}, nreq |-> 0,
-    obsq |-> <<>>, canon |-> <<>>, canongrp |-> "", swrx |-> {}, served |-> <<>>, fuzzy |-> {},
+    obsq |-> <<>>, canon |-> <<>>, canongrp |-> "", swrx |-> {}, served |-> <<>>, fuzzy |-> {}, vu |-> {},
     last |-> NoObs ]
 
 (***************************************************************************)
@@ -96,9 +96,18 @@ OnReset(L, e, line) ==
 
 OnQuiet(L, e, line) == [L EXCEPT !.t = e.t, !.last = [kind |-> "quiet", line |-> line]]
 
+\* stored responses the request could be answered with, judged when the exchange begins
+Candidates(L, rq, x) ==
+  { T \in StoredToks(L) \cap DOMAIN L.tk :
+      /\ L.tk[T].rq.u = rq.u /\ L.tk[T].x < x
+      /\ T \notin L.inval /\ T \notin L.fuzzy
+      /\ ~(\E p \in L.replacedFor : p[1] = T /\ p[2] = rq.sel)
+      /\ VariantMatch(L.eff[T].rep, L.tk[T].rq, rq) }
+
 OnBegin(L, e, line) ==
   [ L EXCEPT !.t = e.t,
-      !.open = L.open @@ (e.x :> [rq |-> e.rq, t0 |-> e.t, nfault |-> e.nfault, hard |-> e.hard, line |-> line, seq |-> L.nreq + 1]),
+      !.open = L.open @@ (e.x :> [rq |-> e.rq, t0 |-> e.t, nfault |-> e.nfault, hard |-> e.hard, line |-> line, seq |-> L.nreq + 1,
+                                  cands |-> IF L.faulted \/ e.nfault > 0 THEN {} ELSE Candidates(L, e.rq, e.x)]),
       !.pairs = L.pairs \cup {<<e.rq.u, e.rq.sel>>},
       !.nreq = L.nreq + 1,
       !.faulted = L.faulted \/ e.nfault > 0,
@@ -125,6 +134,7 @@ OnOp(L, e, line) ==
                    /\ VariantMatch(L.eff[p[1]].rep, L.tk[p[1]].rq, L.tk[N].rq) }
   IN [ L EXCEPT !.t = e.t, !.kv = kv2, !.ever = L.ever \cup new,
          !.replacedFor = L.replacedFor \cup repl2,
+         !.vu = L.vu \cup { L.tk[p[1]].rq.u : p \in repl2 },
          !.last = [kind |-> "op", line |-> line, e |-> e, toks |-> toks, tags |-> tags] ]
 
 OnCall(L, e, line) ==
@@ -147,6 +157,7 @@ OnCall(L, e, line) ==
                                L.eff, L.served[e.x], e.tag)
                  ELSE L.eff,
          !.fuzzy = IF e.bg = 1 /\ e.x \in DOMAIN L.served /\ BgLate(L, c, rq) THEN L.fuzzy \cup {L.served[e.x]} ELSE L.fuzzy,
+         !.vu = IF e.kind = "304" THEN L.vu \cup {rq.u} ELSE L.vu,
          !.varies = IF isResp THEN L.varies \cup {<<e.rep.vary, e.rep.vs>>} ELSE L.varies,
          !.last = [kind |-> "call", line |-> line, e |-> e, rq |-> rq, c |-> c] ]
 
@@ -169,13 +180,8 @@ OnRet(L, e, line) ==
       agec == IF tagKnown /\ L.sent[e.tag].kind = "304" /\ base.age = None /\ fromStore
                 THEN {None} \cup L.eff[e.tok].ages ELSE {base.age}
       ages == {CurrentAgeA(rep, a, e.t) : a \in agec}
-      \* candidates for the must-reuse obligation
-      cands == IF L.faulted THEN {} ELSE
-               { T \in StoredToks(L) \cap DOMAIN L.tk :
-                   /\ L.tk[T].rq.u = rq.u /\ L.tk[T].x < e.x
-                   /\ T \notin L.inval /\ T \notin L.fuzzy
-                   /\ ~(\E p \in L.replacedFor : p[1] = T /\ p[2] = rq.sel)
-                   /\ VariantMatch(L.eff[T].rep, L.tk[T].rq, rq) }
+      \* candidates for the must-reuse obligation (as of the beginning of the exchange)
+      cands == o.cands
       unsafeOK == rq.m \notin SafeMethods /\ resp /\ e.st >= 200 /\ e.st < 400 /\ ownTag
       orep == IF ownTag THEN L.sent[e.tag].rep ELSE [locu |-> -1, locso |-> 0, clocu |-> -1, clocso |-> 0]
       hit(u) == { T \in DOMAIN L.tk : L.tk[T].rq.u = u /\ L.tk[T].x < e.x }
@@ -308,6 +314,8 @@ M08(L) ==
         LET R == L.last  E == R.effBefore[R.e.tok] IN
         E.n304 > 0 => (R.e.tag = E.lasttag /\ SameHeaders(R.rep, E.rep)))
   /\ (A09(L) /\ ~Reused(L) => \A T \in L.last.cands : L.last.effBefore[T].n304 = 0)
+  \* other variants stay available after a validation result was written back for the URI
+  /\ (A09(L) /\ ~Reused(L) => L.last.rq.u \notin L.vu)
 M07x(L) == (A09(L) /\ ~Reused(L)) => (L.last.cands \cap L.namedxo = {})
 
 \* --- C10 ---------------------------------------------------------------
